@@ -280,9 +280,58 @@ def vcr_interaction_sequences(tier, seed):
     return {"name": "vcr_interaction_sequences", "bound": f"all sequences of up to {L} exchanges over {kinds}", "evaluations": n, "exhaustive": True, "violations": viol}
 
 
+def har_matrix(tier, seed):
+    """Bounded native matrix for the HAR writer: URLs (plain, with credentials, with a sensitive query value, with a quote) x sanitize on/off x preserve_bytes x answered / not answered:
+    the file must be valid JSON with exactly one entry whose method / status / URL (sanitized iff asked) are the recorded ones."""
+    import json
+    import os
+    import queue
+    import tempfile
+    from types import SimpleNamespace
+    from schemathesis.cli.commands.run.handlers import cassettes as C
+    from schemathesis.core.output.sanitization import sanitize_url
+    from schemathesis.core.transport import Response
+    from schemathesis.engine.recorder import CaseNode, Interaction, Request, ScenarioRecorder
+
+    uris = ["http://127.0.0.1/x?a=1", "http://user:pw@127.0.0.1/x?a=1", "http://127.0.0.1/x?api_key=K&a=1", "http://127.0.0.1/it's?q=%27", "http://127.0.0.1/x"]
+    n = 0
+    viol = []
+    for uri in uris:
+        for sanitize in (True, False):
+            for preserve in (False, True):
+                for answered in (True, False):
+                    n += 1
+                    rec = ScenarioRecorder(label="GET /x")
+                    rec.cases["c1"] = CaseNode(value=SimpleNamespace(id="c1", meta=None), parent_id=None, transition=None)
+                    req = Request(method="GET", uri=uri, body=b"b", body_size=1, headers={"X-A": ["v"], "Content-Type": ["text/plain"]})
+                    resp = Response(status_code=201, headers={"Content-Type": ["text/plain"]}, content=b"ok", request=SimpleNamespace(), elapsed=0.1, verify=True, message="Created",
+                                    http_version="1.1", encoding="utf-8") if answered else None
+                    rec.interactions["c1"] = Interaction(request=req, response=resp)
+                    q = queue.Queue()
+                    q.put(C.Initialize(seed=1))
+                    q.put(C.Process(recorder=rec))
+                    q.put(C.Finalize())
+                    fd, name = tempfile.mkstemp(suffix=".har")
+                    os.close(fd)
+                    problem = None
+                    try:
+                        C.har_writer(name, sanitize, preserve, q)
+                        entries = json.load(open(name))["log"]["entries"]
+                        want_url = sanitize_url(uri) if sanitize else uri
+                        if len(entries) != 1 or entries[0]["request"]["method"] != "GET" or entries[0]["request"]["url"] != want_url or (answered and entries[0]["response"]["status"] != 201):
+                            problem = "entry not faithful"
+                    except Exception as exc:  # noqa: BLE001
+                        problem = f"writer crashed / invalid file: {type(exc).__name__}: {exc}"[:200]
+                    finally:
+                        os.unlink(name)
+                    if problem and len(viol) < 3:
+                        viol.append({"uri": uri, "sanitize": sanitize, "preserve_bytes": preserve, "answered": answered, "problem": problem})
+    return {"name": "har_matrix", "bound": f"{len(uris)} URLs x sanitize x preserve_bytes x answered", "evaluations": n, "exhaustive": False, "violations": viol}
+
+
 KNOWN_F16D = live_finding("F16d")
 KNOWN_F16A = live_finding("F16a")
-BOUNDED = [double_quoted_every_code_point, double_quoted_loop_bookkeeping, vcr_matrix, vcr_interaction_sequences]
+BOUNDED = [double_quoted_every_code_point, double_quoted_loop_bookkeeping, vcr_matrix, vcr_interaction_sequences, har_matrix]
 
 LEVEL_TEXT = ("JUnit handler crash-freedom is a deductive obligation over an arbitrary statistic (pyvc/z3). YAML escaping is decided by complete enumeration of all code points "
               "plus a bounded loop-bookkeeping check; cassette structure by a native matrix. Level other: most of the property lives in string formats outside the deductive encoding.")
